@@ -903,7 +903,14 @@ impl QueryRouter {
         let num_parameters = message_cursor.get_i16();
 
         for i in 0..num_parameters {
-            let mut len = message_cursor.get_i32() as usize;
+            let len = message_cursor.get_i32();
+
+            // NULL parameter: no value bytes follow.
+            if len < 0 {
+                continue;
+            }
+
+            let mut len = len as usize;
             let format = match &parameter_format {
                 ParameterFormat::Text => ParameterFormat::Text,
                 ParameterFormat::Uniform(format) => *format.clone(),
@@ -943,6 +950,10 @@ impl QueryRouter {
                                 "Got wrong length for integer type parameter in bind: {}",
                                 len
                             );
+                            if message_cursor.remaining() < len {
+                                break;
+                            }
+                            message_cursor.advance(len);
                             continue;
                         }
                     },
@@ -951,6 +962,13 @@ impl QueryRouter {
                 };
 
                 shards.insert(sharder.shard(value));
+            } else {
+                // Not a sharding key: skip over the value so the next
+                // parameter is read from where it starts.
+                if message_cursor.remaining() < len {
+                    break;
+                }
+                message_cursor.advance(len);
             }
         }
 
